@@ -53,6 +53,12 @@ BOUNDS = {
               "slit_magnitudes": H.SLIT_MAGS, "slit_vector": ["scalar", "per-point"],
               "q_calc": ["default", "user"], "accuracy": ACCURACIES, "sigma2d": SIG2D,
               "models": ["sphere", "cylinder"],
+              "sigma_over_local_step": "pinhole, default q_calc, sigma = f x data step at the first / last point only, f in %s, "
+                                       "n in (3, 10), all grid kinds" % H.STEP_FRACTIONS,
+              "user_qcalc_order": "user q_calc stored descending / rotated / interleaved / data points first, n = 10, every "
+                                  "pinhole pattern and slit family, against the ascending twin",
+              "copy_round_trip": "copy.deepcopy and pickle of every resolution object (and DirectModel; a refusal to pickle "
+                                 "the calculator is accepted), then apply: bit-identical",
               "reuse": "every object: inputs / data object / theory array compared bit for bit with copies after construction "
                        "and after apply(); apply() twice; second construction from the same inputs (1-D: n <= 30 or log "
                        "grid with default q_calc); Pinhole2D with index=None and a boolean index, and with dx and dy one "
@@ -101,6 +107,27 @@ def cases(ctx):
                             for mag in (H.SLIT_MAGS if shape != "zero" else ["small"]):
                                 out.append({"kind": "slit", "grid": g, "n": n, "q0": q0, "shape": shape,
                                             "mag": mag, "per": per, "qcalc": mode})
+    # sigma as a fraction of the local data step at the first / the last point (default q_calc): every rounding boundary of
+    # the number of extension steps is bracketed
+    for q0 in _q0s(ctx):
+        for n in ([3, 10] if ctx.quick else [3, 10, 100]):
+            for g in GRIDS:
+                for side in ("first", "last"):
+                    for f in H.STEP_FRACTIONS:
+                        out.append({"kind": "pinhole", "grid": g, "n": n, "q0": q0, "width": "step:%s:%g" % (side, f),
+                                    "qcalc": "default"})
+    # a user-supplied q_calc that is not stored ascending
+    for q0 in (_q0s(ctx)[:1] if ctx.quick else _q0s(ctx)):
+        for n in ([10] if ctx.quick else [3, 10, 30]):
+            for g in GRIDS:
+                for qo in QCALC_ORDERS:
+                    for w in H.PINHOLE_WIDTHS:
+                        out.append({"kind": "pinhole", "grid": g, "n": n, "q0": q0, "width": w, "qcalc": "user", "qorder": qo})
+                    for per in (False, True):
+                        for shape in H.SLIT_SHAPES:
+                            for mag in (H.SLIT_MAGS if shape != "zero" else ["small"]):
+                                out.append({"kind": "slit", "grid": g, "n": n, "q0": q0, "shape": shape, "mag": mag,
+                                            "per": per, "qcalc": "user", "qorder": qo})
     # storage order: the same points (with their own widths) stored descending / rotated / interleaved, span 200
     for q0 in _q0s(ctx):
         for n in ns:
@@ -245,6 +272,8 @@ def _judge_matrix(r, fk, desc, res, q, sig_zero, windows, allowed_deficit, qref,
         smeared = np.asarray(res.apply(theory), float)
     tol0 = 1e-13 + 4 * H.EPS * len(qc)
     check_support = fk.get("qcalc") == "default"
+    _u = np.unique(qc)
+    lo_gap = float(_u[1] - _u[0]) if len(_u) > 1 else 0.0
     lo_step, hi_step = H.end_steps(qc)
     nt = 0
     branches = set()
@@ -261,14 +290,15 @@ def _judge_matrix(r, fk, desc, res, q, sig_zero, windows, allowed_deficit, qref,
             J.bad("const", "apply(constant %r)[%d] = %r at q=%r" % (CONST, i, flat[i] if flat.shape == (n,) else flat, q[i]))
         if allowed_deficit[i] > 0:
             branches.add("deficit-permitted")
-        # support: the calculation grid reaches both ends of the window (to within its own end spacing)
+        # support: the midpoint-rule bins reach both ends of the window, i.e. the calculation grid comes to within half
+        # its own end spacing of them (a window that is folded at 0 / cut at 0.02 q_min: within one interleaved spacing)
         need_lo = max(lo, cut)
         if not check_support:
             pass      # a user-supplied grid is only filtered and folded; spanning is the caller's duty
-        elif qc.min() > need_lo * (1 + 1e-12) + lo_step:
+        elif qc.min() > need_lo * (1 + 1e-12) + (lo_step if lo <= cut * (1 + 1e-9) else 0.5 * lo_gap):
             J.bad("support", "data point %d (q=%r): window starts at %r (cut %r) but min(q_calc) = %r"
                   % (i, q[i], lo, cut, qc.min()), end="low")
-        if check_support and qc.max() < hi * (1 - 1e-12) - hi_step:
+        if check_support and qc.max() < hi * (1 - 1e-12) - 0.5 * hi_step:
             J.bad("support", "data point %d (q=%r): window ends at %r but max(q_calc) = %r"
                   % (i, q[i], hi, qc.max()), end="high")
         inside = int(np.sum((qc >= lo * (1 - 1e-12)) & (qc <= hi * (1 + 1e-12))))
@@ -338,6 +368,22 @@ def _reuse(r, fk, desc, make, inputs, before, res, theory_of, second=True):
         J.bad("second-use", "apply() on the same theory array gives %r the first time and %r the second time (data point %d)"
               % (o1[k] if o1.shape == o2.shape else o1.shape, o2[k] if o1.shape == o2.shape else o2.shape, k), what="apply")
     branches = ["reuse:apply-twice"]
+    # copy round trip (what a parallel fit does): the copy smears the theory exactly as the original
+    for how, twin, refusal in H.copy_round_trips(res):
+        if twin is None:
+            J.bad("copy", "%s of the resolution object failed: %s" % (how, refusal), how=how, what="refused")
+            continue
+        with np.errstate(all="ignore"):
+            try:
+                oc = np.array(twin.apply(th0.copy()), float)
+            except Exception as exc:  # noqa
+                J.bad("copy", "the %s copy cannot be applied: %s: %s" % (how, type(exc).__name__, exc), how=how, what="raises")
+                continue
+        if oc.shape != o1.shape or not np.array_equal(oc, o1, equal_nan=True):
+            k = int(np.argmax(oc != o1)) if oc.shape == o1.shape else 0
+            J.bad("copy", "the %s copy smears data point %d to %r, the original to %r"
+                  % (how, k, oc[k] if oc.shape == o1.shape else oc.shape, o1[k]), how=how, what="result")
+        branches.append("copy:" + how)
     if second:
         res2 = _construct(r, dict(fk, use="second"), desc + " [second construction from the same inputs]", make)
         if res2 is not None:
@@ -360,6 +406,41 @@ def _reuse(r, fk, desc, make, inputs, before, res, theory_of, second=True):
             inputs_ok("second construction")
             branches.append("reuse:second-construction")
     r.ok(nt=True, outcome="reuse:%s" % ("ok" if not J.failed else "FAILED"), trans=3, branches=branches)
+
+
+QCALC_ORDERS = ["descending", "rotated", "interleaved", "data-first"]
+
+
+def _qcalc_order(name, qcalc, q):
+    """the user-supplied grid in another storage order; "data-first" = np.hstack([data points, the other points])"""
+    if name == "data-first":
+        extra = qcalc[~np.isin(qcalc, q)]
+        return np.concatenate([np.asarray(q, float), extra])
+    return qcalc[H.order_perm(name, len(qcalc))]
+
+
+def _qcalc_twin(r, fk, desc, res, make_twin, qref, name):
+    """a user-supplied q_calc in another order: same set of calculated q, and the same smeared value of a theory
+    evaluated at the object's own q_calc, as the twin built from the ascending grid"""
+    J = Judge(r, fk, desc)
+    twin = _construct(r, dict(fk, qorder="ascending"), desc + " [q_calc ascending]", make_twin)
+    if twin is None:
+        return
+    qc, qt = np.asarray(res.q_calc, float), np.asarray(twin.q_calc, float)
+    if qc.shape != qt.shape or not np.array_equal(np.sort(qc), np.sort(qt)):
+        J.bad("qcalc-order", "the set of calculated q depends on the order of the supplied q_calc (%d vs %d points)"
+              % (len(qc), len(qt)), what="q_calc")
+    else:
+        with np.errstate(all="ignore"):
+            got = np.asarray(res.apply(_theory(qc, qref)), float)
+            want = np.asarray(twin.apply(_theory(qt, qref)), float)
+        if got.shape != want.shape or np.any(~(np.abs(got - want) <= (1e-13 + 4 * H.EPS * len(qt)) * np.abs(want))):
+            k = int(np.nanargmax(np.abs(got - want))) if got.shape == want.shape else 0
+            J.bad("qcalc-order", "data point %d: theory evaluated at the object's q_calc smears to %r; with the same q_calc "
+                  "supplied in ascending order it smears to %r" % (k, got[k] if got.shape == want.shape else got.shape, want[k]),
+                  what="apply")
+    r.ok(nt=True, n=len(qt), outcome="qcalc-order:%s" % ("ok" if not J.failed else "FAILED"), trans=1,
+         branches=["qcalc-order:" + name])
 
 
 def _order_of(case, n):
@@ -408,13 +489,25 @@ def run_pinhole(case, ctx, r):
     from sasmodels import resolution
     order, p, span = _order_of(case, case["n"])
     qa = H.qgrid(case["grid"], case["n"], case["q0"], span)
-    siga = H.pinhole_sigma(case["width"], qa)
+    if case["width"].startswith("step"):
+        # sigma = f x the local data step at the first / last point only (all other points have zero width): brackets the
+        # rounding of the number of extension steps of the default grid
+        _, side, f = case["width"].split(":")
+        siga = np.zeros(len(qa))
+        k = 0 if side == "first" else len(qa) - 1
+        siga[k] = float(f) * (qa[1] - qa[0] if side == "first" else qa[-1] - qa[-2])
+    else:
+        siga = H.pinhole_sigma(case["width"], qa)
     q, sig = qa[p], siga[p]                  # widths travel with their points
     n = len(q)
     fk = {"class": "Pinhole1D", "width": case["width"], "qcalc": case["qcalc"]}
     if order:
         fk["order"] = order
     qcalc = None if case["qcalc"] == "default" else _user_grid_linear(q, sig, n)
+    qcalc_sorted = qcalc
+    if case.get("qorder"):
+        qcalc = _qcalc_order(case["qorder"], qcalc, q)
+        fk["qorder"] = case["qorder"]
     desc = ("Pinhole1D(q=%s(q0=%r, n=%d%s), q_width=<%s> %s, q_calc=%s)"
             % (case["grid"], case["q0"], n, ", span %g, stored %s" % (span, order) if order else "", case["width"],
                _fmt(sig), "None" if qcalc is None else _fmt(qcalc)))
@@ -428,7 +521,10 @@ def run_pinhole(case, ctx, r):
            second=n <= 30 or (case["grid"] == "log" and qcalc is None))
     windows = [H.pinhole_window(q[i], sig[i]) for i in range(n)]
     _judge_matrix(r, fk, desc, res, q, sig == 0, windows, np.zeros(n), case["q0"])
-    r.branch("pinhole:" + case["width"])
+    r.branch("pinhole:" + (case["width"] if not case["width"].startswith("step") else "step"))
+    if case.get("qorder"):
+        _qcalc_twin(r, fk, desc + " [q_calc stored %s]" % case["qorder"], res,
+                    lambda: resolution.Pinhole1D(q.copy(), sig.copy(), q_calc=qcalc_sorted.copy()), case["q0"], case["qorder"])
     if order:
         qcalc_a = None if qcalc is None else _user_grid_linear(qa, siga, n)
         _equivariance(r, fk, desc, res, lambda: resolution.Pinhole1D(qa.copy(), siga.copy(), q_calc=qcalc_a), p,
@@ -452,6 +548,10 @@ def run_slit(case, ctx, r):
     lo_all = min(w[0] for w in windows)
     hi_all = max(w[1] for w in windows)
     qcalc = None if case["qcalc"] == "default" else _user_grid_geometric(q, lo_all, hi_all, n)
+    qcalc_sorted = qcalc
+    if case.get("qorder"):
+        qcalc = _qcalc_order(case["qorder"], qcalc, q)
+        fk["qorder"] = case["qorder"]
     desc = ("Slit1D(q=%s(q0=%r, n=%d%s), q_length=%s, q_width=%s, q_calc=%s) [%s/%s/%s]"
             % (case["grid"], case["q0"], n, ", span %g, stored %s" % (span, order) if order else "", _fmt(L), _fmt(W),
                "None" if qcalc is None else _fmt(qcalc), case["shape"], case["mag"],
@@ -486,6 +586,11 @@ def run_slit(case, ctx, r):
     _judge_matrix(r, fk, desc, res, q, (Lv == 0) & (Wv == 0), windows, allowed, case["q0"], cancel)
     r.branch("slit:" + case["shape"])
     r.branch("slit-mag:" + case["mag"])
+    if case.get("qorder"):
+        _qcalc_twin(r, fk, desc + " [q_calc stored %s]" % case["qorder"], res,
+                    lambda: resolution.Slit1D(q.copy(), q_length=L if np.isscalar(L) else L.copy(),
+                                              q_width=W if np.isscalar(W) else W.copy(), q_calc=qcalc_sorted.copy()),
+                    case["q0"], case["qorder"])
     if order:
         qcalc_a = None if qcalc is None else _user_grid_geometric(qa, lo_all, hi_all, n)
         _equivariance(r, fk, desc, res,
@@ -814,6 +919,21 @@ def _reuse_direct(r, fk, desc, data, before, model, calc, pars, got):
             k = int(np.argmax(v != got)) if v.shape == got.shape else 0
             J.bad("second-use", "%s gives %r at selected point %d, the first gave %r"
                   % (label, v[k] if v.shape == got.shape else v.shape, k, got[k]), what="direct")
+    # copy round trip of the calculator itself; a refusal to copy (ctypes kernels do not pickle) is accepted
+    from sasmodels.direct_model import DirectModel as _DM
+    fresh = _DM(data, model, cutoff=0.0)                 # a calculator that has not been evaluated yet, and the used one
+    for how, twin, refusal in ([("fresh-" + h, t, e) for h, t, e in H.copy_round_trips(fresh)] + H.copy_round_trips(calc)):
+        if twin is None:
+            r.branch("copy-refused:direct:" + how)
+            continue
+        with warnings.catch_warnings():
+            warnings.simplefilter("ignore")
+            v = np.asarray(twin(**pars), float)
+        if v.shape != got.shape or not np.array_equal(v, got, equal_nan=True):
+            k = int(np.argmax(v != got)) if v.shape == got.shape else 0
+            J.bad("copy", "the %s copy of the calculator gives %r at selected point %d, the original %r"
+                  % (how, v[k] if v.shape == got.shape else v.shape, k, got[k]), how=how, what="direct")
+        r.branch("copy:direct:" + how)
     names = H.changed(before, data)
     if names and not J.failed:
         J.bad("inputs-modified", "the second use changed the caller's data object: %s"
@@ -1141,6 +1261,12 @@ def run_case(case, ctx):
 
 
 def finish(ctx, report):
+    report.require("pinhole:step", 200, "sigma as a fraction of the local data step at the first / last point")
+    for qo in QCALC_ORDERS:
+        report.require("qcalc-order:" + qo, 100, "user-supplied q_calc stored in another order, against its ascending twin")
+    for how in ("deepcopy", "pickle"):
+        report.require("copy:" + how, 1000, "copy round trip of a resolution object")
+    report.require("copy:direct:fresh-deepcopy", 50, "copy round trip of a DirectModel calculator")
     for w in H.PINHOLE_WIDTHS:
         report.require("pinhole:" + w, 10, "pinhole width pattern constructed and judged")
     for s in ("zero", "length-only", "both-L>W"):
